@@ -12,6 +12,10 @@ use std::time::Duration;
 use tracing::debug;
 use ttl_cache::TtlCache;
 
+/// Upper bound on the payload bytes buffered per direction of a flow while waiting for a
+/// complete message head. Real request and response heads are far smaller.
+const MAX_BUFFERED_BYTES_PER_DIRECTION: usize = 64 * 1024;
+
 /// FlowKey: (Client IP, Server IP, Client Port, Server Port)
 pub type FlowKey = (IpAddr, IpAddr, u16, u16);
 
@@ -186,6 +190,17 @@ impl TcpFlow {
             server_http_parsed: false,
         }
     }
+    /// Number of payload bytes currently buffered for one direction.
+    fn buffered_len(&self, is_client: bool) -> usize {
+        let data: &Vec<TcpData> = if is_client {
+            &self.client_data
+        } else {
+            &self.server_data
+        };
+        data.iter()
+            .fold(0usize, |acc, d| acc.saturating_add(d.data.len()))
+    }
+
     /// Traversing all the data in sequence in the correct order to build the full data
     ///
     /// # Parameters
@@ -285,17 +300,26 @@ fn process_tcp_packet(
                 // Only add data and parse if not already parsed
                 if !flow.client_http_parsed {
                     flow.client_data.push(tcp_data);
-                    let full_data = flow.get_full_data(is_client);
+                    if flow.buffered_len(is_client) > MAX_BUFFERED_BYTES_PER_DIRECTION {
+                        // No message head within the limit: this direction is not HTTP we can
+                        // report. Stop collecting it instead of growing with the connection.
+                        debug!("CLIENT: no HTTP head within the buffer limit, giving up on this direction");
+                        flow.client_data = Vec::new();
+                        flow.client_http_parsed = true;
+                    } else {
+                        let full_data = flow.get_full_data(is_client);
 
-                    // Quick check before expensive parsing (supports HTTP/1.x and HTTP/2)
-                    if has_complete_http_data(&full_data, processors) {
-                        match parse_http_request(&full_data, processors) {
-                            Ok(Some(http_request_parsed)) => {
-                                observable_http_package.http_request = Some(http_request_parsed);
-                                flow.client_http_parsed = true;
+                        // Quick check before expensive parsing (supports HTTP/1.x and HTTP/2)
+                        if has_complete_http_data(&full_data, processors) {
+                            match parse_http_request(&full_data, processors) {
+                                Ok(Some(http_request_parsed)) => {
+                                    observable_http_package.http_request =
+                                        Some(http_request_parsed);
+                                    flow.client_http_parsed = true;
+                                }
+                                Ok(None) => {}
+                                Err(_e) => {}
                             }
-                            Ok(None) => {}
-                            Err(_e) => {}
                         }
                     }
                 } else {
@@ -305,20 +329,27 @@ fn process_tcp_packet(
                 // Only add data and parse if not already parsed
                 if !flow.server_http_parsed {
                     flow.server_data.push(tcp_data);
-                    let full_data = flow.get_full_data(is_client);
-
-                    // Quick check before expensive parsing (supports HTTP/1.x and HTTP/2)
-                    if has_complete_http_data(&full_data, processors) {
-                        match parse_http_response(&full_data, processors) {
-                            Ok(Some(http_response_parsed)) => {
-                                observable_http_package.http_response = Some(http_response_parsed);
-                                flow.server_http_parsed = true;
-                            }
-                            Ok(None) => {}
-                            Err(_e) => {}
-                        }
+                    if flow.buffered_len(is_client) > MAX_BUFFERED_BYTES_PER_DIRECTION {
+                        debug!("SERVER: no HTTP head within the buffer limit, giving up on this direction");
+                        flow.server_data = Vec::new();
+                        flow.server_http_parsed = true;
                     } else {
-                        debug!("SERVER: Data not complete yet, waiting for more");
+                        let full_data = flow.get_full_data(is_client);
+
+                        // Quick check before expensive parsing (supports HTTP/1.x and HTTP/2)
+                        if has_complete_http_data(&full_data, processors) {
+                            match parse_http_response(&full_data, processors) {
+                                Ok(Some(http_response_parsed)) => {
+                                    observable_http_package.http_response =
+                                        Some(http_response_parsed);
+                                    flow.server_http_parsed = true;
+                                }
+                                Ok(None) => {}
+                                Err(_e) => {}
+                            }
+                        } else {
+                            debug!("SERVER: Data not complete yet, waiting for more");
+                        }
                     }
                 } else {
                     debug!("SERVER: HTTP already parsed, discarding additional data");
